@@ -1,4 +1,6 @@
 """C28 — storage space reservations are honoured (storage/server.py allocate_buckets accounting)."""
+import os
+
 import props.imm_util as U
 
 ID = "C28"
@@ -41,13 +43,26 @@ CORPUS += [
     (False, 0, [["A", 0, [0, 1, 2], 30, 0, 100, 1], ["S"], ["C", 0], ["K", 1], ["S"], ["A", 0, [1, 2, 3], 30, 1, 100, 2], ["S"]]),
 ]
 
+CORPUS += [
+    # seeded C28-a: the reservation of an upload is its full allocated size, whatever was written
+    # (tail written first): a second 40-byte share does not fit into free=60
+    (False, 0, [["A", 0, [0], 40, 0, 100], ["W", 0, 39, "ff"], ["S"], ["A", 0, [1], 40, 0, 60], ["S"]]),
+    # seeded C28-b: available space exactly 0 on a writable server (free == reserved_space, free < reserved_space)
+    (False, 50, [["A", 0, [0, 1], 5000, 0, 50], ["S"], ["A", 1, [0], 1, 0, 10], ["S"]]),
+    # seeded C28-c: abort while a sibling upload (same SI; same prefix directory) is still in progress
+    (False, 0, [["A", 0, [0, 1], 30, 0, 100], ["X", 0], ["S"], ["A", 0, [2], 30, 1, 100], ["S"], ["X", 1], ["S"]]),
+    (False, 0, [["A", 0, [0], 30, 0, 100], ["A", 2, [0], 30, 0, 100], ["X", 0], ["S"], ["X", 1], ["S"]]),
+    # repaired defect (fixes/C28-readonly.diff): read-only server, zero-size shares, with and without a connection
+    (True, 0, [["A", 1, [0, 1, 2], 0, 0, 10 ** 9, 1], ["S"], ["D"]]),
+]
+
 
 def free_fn(rng):
     return rng.choice([0, 5, 20, 40, 59, 60, 61, 100, 150, 250, 10 ** 6])
 
 
 def run(ctx):
-    n_hist = ctx.budget(160, 10000)
+    n_hist = 0 if os.environ.get("VERIF_CORPUS_ONLY") else ctx.budget(160, 10000)
     cases = []
     if ctx.replay:
         c = ctx.replay["case"]
